@@ -1,10 +1,10 @@
 #!/bin/bash
-# import_seed.sh c13 : copy /tmp/seedout-c13/{1,2} to /verif/seeded/C13-{1,2}, remove the agent's scratch worktree
-p=$1; P=$(echo $p | tr a-z A-Z)
+# import_seed.sh c13 [2] : copy /tmp/seedout[2]-c13/{1,2} to /verif/seeded/C13-<n>, remove the agent's scratch worktree /tmp/seed[2]-c13
+p=$1; r=$2; P=$(echo $p | tr a-z A-Z)
 for i in 1 2 3; do
-  if [ -f /tmp/seedout-$p/$i/patch.diff ]; then
-    n=$i; while [ -e /verif/seeded/$P-$n ]; do n=$((n+1)); done
-    mkdir -p /verif/seeded/$P-$n; cp /tmp/seedout-$p/$i/{patch.diff,demo.py,meta.json} /verif/seeded/$P-$n/; echo imported $P-$n
+  if [ -f /tmp/seedout$r-$p/$i/patch.diff ]; then
+    n=1; while [ -e /verif/seeded/$P-$n ]; do n=$((n+1)); done
+    mkdir -p /verif/seeded/$P-$n; cp /tmp/seedout$r-$p/$i/{patch.diff,demo.py,meta.json} /verif/seeded/$P-$n/; echo imported $P-$n
   fi
 done
-git -C /repo worktree remove --force /tmp/seed-$p 2>/dev/null; rm -rf /tmp/seedout-$p
+git -C /repo worktree remove --force /tmp/seed$r-$p 2>/dev/null; rm -rf /tmp/seedout$r-$p
